@@ -448,3 +448,34 @@ Proof.
       repeat constructor; unfold word_fits; cbn; lia.
   - repeat constructor; lia.
 Qed.
+
+(* non-vacuity of the packaging: a header with aliases, comment / obj_info / blank lines and a body with blank lines *)
+Example variants_example :
+  let ps : vprops := [(Float, "z"); (UChar, "green"); (Float, "x"); (UChar, "red"); (Int, "id"); (UChar, "blue"); (Float, "y")]%string in
+  let a := {| a_fmt := ASCII; a_vprops := ps; a_verts := [[1065353216; 128; 1073741824; 255; 7; 0; 1077936128]];
+              a_fprops := None; a_faces := [] |} in
+  let hl := [["ply"]; ["format"; "ascii"; "1.0"]; ["comment"; "made"; "by"; "another"; "tool"];
+             ["element"; "vertex"; "1"]; ["property"; "float32"; "z"]; ["property"; "uint8"; "green"]; [];
+             ["property"; "float"; "x"]; ["obj_info"; "element"; "face"; "3"]; ["property"; "uchar"; "red"];
+             ["property"; "int32"; "id"]; ["property"; "uint8"; "blue"]; ["property"; "float32"; "y"];
+             ["comment"]; ["end_header"]]%string in
+  let b' := BodyAscii ([] :: match enc_body a with BodyAscii l => l | _ => [] end ++ [[]; []]) in
+  header_variant (header_of a) hl /\ body_variant (enc_body a) b' /\
+  known_finding_excluded a /\ vertex_element_ok a /\ face_element_ok a.
+Proof.
+  cbv zeta. split; [|split; [|split; [|split]]].
+  - exists [["element"; "vertex"; "1"]; ["property"; "float32"; "z"]; ["property"; "uint8"; "green"];
+             ["property"; "float"; "x"]; ["property"; "uchar"; "red"];
+             ["property"; "int32"; "id"]; ["property"; "uint8"; "blue"]; ["property"; "float32"; "y"]; ["end_header"]]%string.
+    eexists. split; [|split; [|reflexivity]].
+    + vm_compute header_body.
+      repeat (apply Forall2_cons; [first [apply al_same | apply al_scalar; eexists; split; reflexivity]|]).
+      apply Forall2_nil.
+    + repeat first [apply wn_nil | apply wn_keep | apply wn_ins; [first [exact I | left; reflexivity | right; reflexivity]|]].
+  - right. eexists _, _. split; [reflexivity|]. split; [reflexivity|]. vm_compute. reflexivity.
+  - unfold known_finding_excluded. cbn [a_fmt a_vprops]. vm_compute spec_entries. repeat constructor; intros _; discriminate.
+  - unfold vertex_element_ok. cbn [a_vprops a_verts]. split; [discriminate|].
+    split; [repeat constructor; cbn; intuition discriminate|]. split; [repeat constructor|].
+    repeat constructor; unfold word_fits; cbn; lia.
+  - left. split; reflexivity.
+Qed.
